@@ -726,9 +726,9 @@ theorem remove_types_node_rel (e : Expr) :
 
 /-- **`remove_attribute` as a whole** preserves the observable outcome of EVERY program (stage-2 lifting:
 the closures differ in attributes only). -/
-theorem rule_refines_remove_attribute' (b : Block) {N : NumOps} (ρ : ExtOracle N) (n : Nat)
+theorem rule_refines_remove_attribute (b : Block) {N : NumOps} (ρ : ExtOracle N) (n : Nat)
     (externs : List String) :
     runProgram ρ n externs (RemoveAttribute.apply b) = runProgram ρ n externs b :=
-  rule_refines_remove_attribute b ρ n externs
+  remove_attribute_refines_lift b ρ n externs
 
 end DarkluaModel.C06
